@@ -465,6 +465,9 @@ def deps_sig(fn):
         return ([], f"dep: &{a}{bounds[0]}", [], "sim::addr(dep)", "dep")
     if form == "byval":
         return ([], f"deps: impl {b} + Token", [], "deps.token() as usize", "&deps")
+    if form == "byval_any":
+        # by value, no bounds at all: the only thing observable about it is its type
+        return (["D"], "deps: D", [], "{ let _ = &deps; sim::name_fp(std::any::type_name::<D>()) as usize }", None)
     raise ValueError(form)
 
 
@@ -563,7 +566,7 @@ def single(fn, registered=False):
     fn.cid = new_container()
     corpus.append(cmark(fn.cid) + ccfg(fn.cid) + attr + "\n" + fn_text(fn) + cmark(0))
     t = fn.trait + (fn.bundle_args or ("<u64>" if any(p.kind == "gen" for p in fn.params) else ""))
-    if fn.deps[0] != "byval" and fn.bundle_args != "-":
+    if fn.deps[0] not in ("byval", "byval_any") and fn.bundle_args != "-":
         bundle_traits.append((t, fn.hetero))
     return fn
 
@@ -848,6 +851,14 @@ def mmac_module():
 
 
 mmac_module()
+# by-value (unbounded) deps AFTER by-reference deps in one module, and the other way round
+single(Fn("bva_single", ("byval_any", []), ["u64", "u64"]))
+module("mbyval", "Mbyval", [Fn("mbv_ref", ("impl", ["F0"]), ["u64", "u64"]), Fn("mbv_val", ("byval_any", []), ["u64", "u64"]),
+                            Fn("mbv_ref2", ("gen", ["F0"]), ["u64", "u64"]), Fn("ambv_val", ("byval_any", []), ["u64", "u64"], is_async=True)])
+module("mbyval2", "Mbyval2", [Fn("mbw_val", ("byval_any", []), ["u64", "u64"]), Fn("mbw_ref", ("impl", ["F0"]), ["u64", "u64"])])
+# parameter names that differ only by leading underscores
+single(Fn("und_names", ("impl", ["F0"]), ["u64", "name=limit:u64", "name=_limit:u64"], calls=["f0"]))
+single(Fn("aund_names", ("impl", ["Af0"]), ["name=_x:u64", "name=__x:u64", "name=x:u64"], is_async=True))
 # names that are prefixes of their siblings' names
 module("mpre", "Mpre", [Fn("get", ("impl", ["F0"]), ["u64", "u64"]), Fn("get_all", ("impl", ["F0"]), ["u64", "u64"]), Fn("get_", ("impl", ["F0"]), ["u64", "u64"]), Fn("ge", ("impl", ["F0"]), ["u64", "u64"])])
 # restricted-visibility fns BEFORE plain `pub` ones, all with interchangeable signatures
@@ -1394,6 +1405,10 @@ trait_section("ABorrowInd", "borrow", [
 trait_section("ByRefFl", "ref", [Fn("rfl1", SELF, ["u64", "u64"]), Fn("rfl2", SELF, ["u64", "u64"])], supers=": 'static", flavours=("Sync", "Send", "Send + Sync"))
 trait_section("ByBorrowFl", "borrow", [Fn("bfl1", SELF, ["u64", "u64"])], supers=": 'static", flavours=("Sync", "Send + Sync"))
 trait_section("ARefFl", "ref", [Fn("arfl1", SELF, ["u64", "u64"], is_async=True)], async_trait=True, supers=": Sync + 'static", flavours=("Sync", "Send + Sync"))
+trait_section("PlainUnd", "self", [Fn("pund1", SELF, ["u64", "name=limit:u64", "name=_limit:u64"]), Fn("pund2", SELF, ["name=_x:u64", "name=__x:u64", "name=x:u64"]),
+                                   Fn("apund", SELF, ["name=_v:u64", "name=v:u64"], is_async=True)])
+trait_section("ByRefUnd", "ref", [Fn("rund1", SELF, ["name=limit:u64", "name=_limit:u64"]), Fn("rund2", SELF, ["name=__k:u64", "name=_k:u64"])], supers=": 'static")
+trait_section("ByBorrowUnd", "borrow", [Fn("bund1", SELF, ["name=_limit:u64", "name=limit:u64"])], supers=": 'static")
 trait_section("PlainPre", "self", [Fn("tget", SELF, ["u64", "u64"]), Fn("tget_all", SELF, ["u64", "u64"]), Fn("tget_", SELF, ["u64", "u64"]), Fn("tge", SELF, ["u64", "u64"])])
 trait_section("ByRefRI", "ref", [Fn("rri1", SELF, ["u64", "u64"]), Fn("rri_unit", SELF, ["u64"], ret="unit")], refimpl=True)
 trait_section("ByBorrowRI", "borrow", [Fn("bri1", SELF, ["u64", "u64"]), Fn("bri2", SELF, ["u64", "u64"])], refimpl=True)
@@ -1631,7 +1646,9 @@ def inversion(trait, impl_trait, mode, methods, delegate_ident=None, async_trait
             field = f"dyn_{trait.lower()}_{'ab'[which]}"
             APP_FIELDS_TYPED.append((field, target))
             k = lookup_kind(trait)
-            sync = " + Sync" if async_trait or any(d.is_async for d in decls) else ""
+            # entrait asks for `+ Sync` exactly when the trait has an async METHOD (an `#[async_trait]`
+            # attribute on a trait with sync methods only does not count)
+            sync = " + Sync" if any(d.is_async for d in decls) else ""
             text += (f"{cfg}impl AsRef<dyn {impl_trait}<Self>{sync}> for App<{which}> {{\n"
                      f"    fn as_ref(&self) -> &(dyn {impl_trait}<Self>{sync} + 'static) {{\n"
                      f"        sim::lookup({k});\n        &self.{field}\n    }}\n}}\n")
@@ -1730,6 +1747,10 @@ inversion("ADynInvDual", "ADynInvDualImpl", "dyn", [
     (Fn("add2", SELF, ["u64", "u64"], is_async=True), ("any", []), []),
     (Fn("add_sync", SELF, ["u64", "u64"]), ("any", []), []),
 ], async_trait=True, dual=True)
+inversion("SDynInvDual", "SDynInvDualImpl", "dyn", [
+    (Fn("sdd1", SELF, ["u64", "u64"]), ("impl", ["F0"]), ["f0"]),
+    (Fn("sdd_unit", SELF, ["u64"], ret="unit"), ("any", []), []),
+], async_trait=True, dual=True)
 inversion("NsDynInvDual", "NsDynInvDualImpl", "dyn", [
     (Fn("nsd1", SELF, ["u64", "u64"], is_async=True), ("impl", ["Af0"]), ["af0"]),
     (Fn("nsd2", SELF, ["u64", "u64"], is_async=True), ("any", []), []),
@@ -1796,6 +1817,8 @@ inversion("DynInvRen", "DynInvRenImpl", "dyn", [
     (_renamed("dren1", ("from", "to"), ("to", "from")), ("any", []), []),
     (_renamed("dren2", ("lhs", "rhs", "k"), ("rhs", "k", "lhs")), ("any", []), []),
 ])
+inversion("InvUnd", "InvUndImpl", "static", [(Fn("iund1", SELF, ["name=limit:u64", "name=_limit:u64"]), ("any", []), []), (Fn("iund2", SELF, ["name=_x:u64", "name=x:u64"]), ("impl", ["F0"]), ["f0"])],
+          delegate_ident="DelegateInvUnd")
 inversion("InvPre", "InvPreImpl", "static", [(Fn(n, SELF, ["u64", "u64"]), ("any", []), []) for n in ("iget", "iget_all", "iget_", "ige")], delegate_ident="DelegateInvPre")
 inversion("InvPerm", "InvPermImpl", "static", [(Fn(f"iperm{_i}", SELF, [f"name={n}:u64" for n in _pm]), ("any", []), []) for _i, _pm in enumerate(_PERMS)],
           delegate_ident="DelegateInvPerm")
@@ -1868,6 +1891,7 @@ usingle(Fn("u_same", ("impl", ["U0"]), ["u64", "same:u64"], calls=["u0"]), "USam
 usingle(Fn("u_lt", ("impl", ["U0"]), ["refa", "u64"], ret="refarg", deps_lt=True, calls=["u0"]), "ULtMock")
 usingle(Fn("u_lt_gen", ("gen", ["U0"]), ["u64", "refa"], ret="refarg", deps_lt=True), "ULtGenMock")
 usingle(Fn("au_lt", ("impl", ["Au0"]), ["refa", "u64"], ret="refarg", deps_lt=True, is_async=True, calls=["au0"]), "AuLtMock")
+usingle(Fn("und_und", ("nodeps", []), ["name=limit:u64", "name=_limit:u64"], opts="no_deps"), "UndUndMock")
 usingle(Fn("und_same_first", ("nodeps", []), ["same:u64", "u64"], opts="no_deps"), "UndSameFirstMock")
 usingle(Fn("u_same_first", ("impl", ["U0"]), ["same:u64", "u64", "u64"], calls=["u0"]), "USameFirstMock")
 for _i, _pm in enumerate(_PERMS[:3]):
@@ -2480,6 +2504,9 @@ def plain_calls(fn):
     if form == "concrete":
         h = getattr(fn, "conc_handle", "conc_impl")
         return (f"app.{h}.{fn.name}({{args}})", f"{path}(app.{h}.as_ref(), {{args}})", f"sim::addr(&app.{h})")
+    if form == "byval_any":
+        return (f"Impl::new(SmallApp {{ token: v[7] }}).{fn.name}({{args}})",
+                f"{path}(Impl::new(SmallApp {{ token: v[7] }}), {{args}})", "sim::name_fp(std::any::type_name::<Impl<SmallApp>>()) as usize")
     if form == "byval":
         return (f"Impl::new(SmallApp {{ token: v[7] }}).{fn.name}({{args}})",
                 f"{path}(Impl::new(SmallApp {{ token: v[7] }}), {{args}})", "v[7] as usize")
